@@ -16,7 +16,9 @@ import (
 	sdk "github.com/cosmos/cosmos-sdk/types"
 	authtypes "github.com/cosmos/cosmos-sdk/x/auth/types"
 	banktypes "github.com/cosmos/cosmos-sdk/x/bank/types"
+	distrtypes "github.com/cosmos/cosmos-sdk/x/distribution/types"
 	govtypes "github.com/cosmos/cosmos-sdk/x/gov/types"
+	stakingtypes "github.com/cosmos/cosmos-sdk/x/staking/types"
 
 	"github.com/ethereum/go-ethereum/accounts/abi"
 	"github.com/ethereum/go-ethereum/common"
@@ -67,6 +69,7 @@ type Sys struct {
 	votes map[string]string // "<voter hex>" -> option description
 	pid   uint64
 	slashed bool
+	halted  bool // block processing panicked: the instance is unusable
 }
 
 var stakingAddr = common.HexToAddress(syscontracts.StakingContractAddress)
@@ -155,7 +158,7 @@ func (s *Sys) Clone() bfs.System {
 }
 
 func (s *Sys) Ops() []string {
-	if s.slashed {
+	if s.slashed || s.halted {
 		return nil // the search ends after a slash (the reference model keeps shares 1:1 with tokens)
 	}
 	return s.cfg.Ops
@@ -299,7 +302,20 @@ func (s *Sys) modelString() string {
 }
 
 // Apply: "<path> <user> <action...>" with path in {eoa, fwd, fake} or "advance".
+// Apply runs one operation. A panic that escapes block processing (an SDK invariant broken by what a system contract
+// was allowed to do halts every node) is a violation; the instance is unusable afterwards and the search ends there.
 func (s *Sys) Apply(op string) (out, class string, viols []bfs.Viol) {
+	defer func() {
+		if rec := recover(); rec != nil {
+			s.halted = true
+			out, class = "chain halted", "chain halted"
+			viols = append(viols, bfs.Viol{Sig: "C17:block-processing-panics-after-system-contract-call", Detail: fmt.Sprintf("%s: %v", op, rec)})
+		}
+	}()
+	return s.apply(op)
+}
+
+func (s *Sys) apply(op string) (out, class string, viols []bfs.Viol) {
 	add := func(sig, d string) { viols = append(viols, bfs.Viol{Sig: "C17:" + sig, Detail: d}) }
 	f := strings.Fields(op)
 	before := s.observe()
@@ -421,6 +437,11 @@ func (s *Sys) Apply(op string) (out, class string, viols []bfs.Viol) {
 		return ok && p.Status == govtypes.StatusVotingPeriod
 	}
 	votingBefore := inVoting()
+	// differential: the same action sent by the same account as the native SDK message, on a copy of the chain
+	var native *nativeRun
+	if path == "eoa" && len(segs) == 1 {
+		native = s.runNative(user, segs[0])
+	}
 	res := s.w.Block(s.c, tx)[0]
 	after := s.observe()
 	if before.supply != after.supply {
@@ -439,6 +460,13 @@ func (s *Sys) Apply(op string) (out, class string, viols []bfs.Viol) {
 		}
 	}
 	action := f[2]
+	if native != nil && !ended {
+		if native.ok != res.OK() {
+			add("contract-path-and-native-message-disagree", fmt.Sprintf("%s: through the system contract ok=%v (%s %s); the same native message from the same account ok=%v (%s)", op, res.OK(), res.VMError, res.Log, native.ok, native.log))
+		} else if res.OK() && (fmt.Sprint(native.del) != fmt.Sprint(after.del) || fmt.Sprint(native.votes) != fmt.Sprint(after.votes)) {
+			add("contract-path-and-native-message-disagree", fmt.Sprintf("%s: delegations/votes after the contract call %v %v, after the native message %v %v", op, after.del, after.votes, native.del, native.votes))
+		}
+	}
 	if path == "fake" {
 		// nothing native may happen
 		b, a := before, after
@@ -503,6 +531,64 @@ func (s *Sys) Apply(op string) (out, class string, viols []bfs.Viol) {
 	return "ok", class, append(viols, s.compareModel(add)...)
 }
 
+type nativeRun struct {
+	ok    bool
+	log   string
+	del   map[string]string
+	votes map[string]string
+}
+
+// runNative delivers the native SDK message equivalent to one action, signed by the same account, in the next block of
+// a copy of the chain, and observes the delegations and votes afterwards.
+func (s *Sys) runNative(user world.Account, g []string) *nativeRun {
+	num := func(x string) sdk.Int { v, _ := new(big.Int).SetString(x, 10); return sdk.NewIntFromBigInt(v) }
+	del := user.Acc.String()
+	bond := s.c.App.StakingKeeper.BondDenom(s.c.ReadCtx())
+	var msg sdk.Msg
+	switch g[0] {
+	case "delegate":
+		msg = &stakingtypes.MsgDelegate{DelegatorAddress: del, ValidatorAddress: s.valArg(g[1]), Amount: sdk.Coin{Denom: bond, Amount: num(g[2])}}
+	case "undelegate":
+		msg = &stakingtypes.MsgUndelegate{DelegatorAddress: del, ValidatorAddress: s.valArg(g[1]), Amount: sdk.Coin{Denom: bond, Amount: num(g[2])}}
+	case "redelegate":
+		msg = &stakingtypes.MsgBeginRedelegate{DelegatorAddress: del, ValidatorSrcAddress: s.valArg(g[1]), ValidatorDstAddress: s.valArg(g[2]), Amount: sdk.Coin{Denom: bond, Amount: num(g[3])}}
+	case "withdraw":
+		msg = &distrtypes.MsgWithdrawDelegatorReward{DelegatorAddress: del, ValidatorAddress: s.valArg(g[1])}
+	case "vote":
+		msg = &govtypes.MsgVote{ProposalId: num(g[1]).Uint64(), Voter: del, Option: govtypes.VoteOption(num(g[2]).Uint64())}
+	case "wvote":
+		var opts []govtypes.WeightedVoteOption
+		for _, p := range strings.Split(g[2], ",") {
+			var o, w int64
+			fmt.Sscanf(p, "%d:%d", &o, &w)
+			opts = append(opts, govtypes.WeightedVoteOption{Option: govtypes.VoteOption(o), Weight: sdk.NewDecWithPrec(w, 2)})
+		}
+		msg = &govtypes.MsgVoteWeighted{ProposalId: num(g[1]).Uint64(), Voter: del, Options: opts}
+	default:
+		return nil
+	}
+	alt := s.c.Clone()
+	out := &nativeRun{}
+	func() {
+		defer func() {
+			if rec := recover(); rec != nil {
+				out.ok, out.log = false, fmt.Sprint("panic: ", rec)
+			}
+		}()
+		r := alt.Block(s.w.Now.Add(world.BlockStep), alt.CosmosTx(user, msg))[0]
+		out.ok, out.log = r.OK(), r.Log
+	}()
+	if strings.HasPrefix(out.log, "panic: ") {
+		return nil // block processing of the copy panicked: the main run reports it
+	}
+	orig := s.c
+	s.c = alt
+	o := s.observe()
+	s.c = orig
+	out.del, out.votes = o.del, o.votes
+	return out
+}
+
 // eventFor builds the log (topic, data) the system contract would emit for the action called by sender.
 func (s *Sys) eventFor(f []string, sender common.Address) (common.Hash, []byte) {
 	num := func(x string) *big.Int { v, _ := new(big.Int).SetString(x, 10); return v }
@@ -555,6 +641,9 @@ func (s *Sys) compareModel(add func(sig, d string)) []bfs.Viol {
 }
 
 func (s *Sys) Key() string {
+	if s.halted {
+		return "halted"
+	}
 	o := s.observe()
 	return o.String()
 }
